@@ -25,7 +25,7 @@ pub fn id(v: &Value) -> Value {
 }
 pub fn err_str<E: std::fmt::Debug>(e: E) -> String {
     let s = format!("{:?}", e);
-    if s.len() > 300 { s[..300].to_string() } else { s }
+    if s.chars().count() > 300 { s.chars().take(300).collect() } else { s }
 }
 /// Tiny deterministic RNG (xorshift*), so that generated inputs do not depend on crate versions.
 pub struct Rng(pub u64);
@@ -75,7 +75,7 @@ pub fn json_diff(a: &Value, b: &Value, path: &str) -> Option<(String, Value, Val
 }
 pub fn trunc(v: &Value) -> Value {
     let s = v.to_string();
-    if s.len() > 200 { json!(format!("{}…", &s[..200])) } else { v.clone() }
+    if s.chars().count() > 200 { json!(format!("{}…", s.chars().take(200).collect::<String>())) } else { v.clone() }
 }
 /// Run `f` catching panics: Ok(v) | Err((msg, loc))
 pub fn guarded<T>(f: impl FnOnce() -> T) -> Result<T, String> {
